@@ -249,6 +249,8 @@ def to_z3(v, t=None):
         if t == 'U':
             return z3.Const('str_' + v, U)
         return z3.StringVal(v)
+    if isinstance(v, bytes):
+        return z3.Const('bytes_' + v.hex(), U)  # a bytes literal is an opaque constant (distinct literals are not assumed distinct)
     if isinstance(v, SFrac):
         return v.term
     if isinstance(v, SRecord) and (t is not None and isinstance(t, tuple) and t[0] == 'rec' or getattr(v, 'rtype', None) is not None):
@@ -490,6 +492,7 @@ class Contract:
     setup: Optional[Callable] = None  # setup(engine, state): bind extra environment entries after the inputs exist
     drop_decorators: bool = True
     float_as_real: bool = False
+    strings: bool = False  # f-strings / str() / + on strings build z3 String terms (str of an int is the uninterpreted str_int)
     float_model: str = 'exact'  # 'exact': float ops are real ops (assumption recorded by the contract module);
     #                             'relerr': every float operation result is the real result times (1+d), |d| <= 2**-53
     label: Optional[str] = None
@@ -908,7 +911,7 @@ class Engine:
         if isinstance(node, ast.AnnAssign):
             if node.value is not None:
                 v = self.ev(node.value, st)
-                if isinstance(v, SList) and v.et is None and isinstance(node.target, ast.Name):
+                if isinstance(v, SList) and v.et is None and isinstance(node.target, ast.Name) and node.target.id not in self.c.types:
                     t = _type_of_node(node.annotation)
                     if isinstance(t, tuple) and t[0] == 'list':
                         v = SList(v.len, z3.Const(fresh_name('emptyarr'), z3.ArraySort(z3.IntSort(), sort_of(t[1]))), t[1])
@@ -1291,8 +1294,9 @@ class Engine:
     def exec_with(self, node, st):
         model = None
         for item in node.items:
-            key = 'with:' + ast.unparse(item.context_expr)
-            dn = _dotted(item.context_expr.func) if isinstance(item.context_expr, ast.Call) else _dotted(item.context_expr)
+            ce = item.context_expr.value if isinstance(item.context_expr, ast.Await) else item.context_expr
+            key = 'with:' + ast.unparse(ce)
+            dn = _dotted(ce.func) if isinstance(ce, ast.Call) else _dotted(ce)
             model = self.c.calls.get(key) or (self.c.calls.get('with:' + dn) if dn else None)
             if model is None:
                 raise Undecided('with-statement manager not modelled: %s' % ast.unparse(item.context_expr))
@@ -1377,7 +1381,7 @@ class Engine:
             return ('boundmethod', base, attr)
         if isinstance(base, z3.ExprRef) and base.sort() == U:
             return self.attr_of_U(base, attr)
-        if isinstance(base, (str, int, dict)):
+        if isinstance(base, (str, int, dict, bytes)):
             return ('boundmethod', base, attr)
         raise Undecided('attribute %s of %r' % (attr, base))
 
@@ -1490,7 +1494,7 @@ class Engine:
     def equal(self, a, b):
         if a is None or b is None:
             return self.is_none(b if a is None else a)
-        if isinstance(a, (bool, int, str, float)) and isinstance(b, (bool, int, str, float)):
+        if isinstance(a, (bool, int, str, float, bytes)) and isinstance(b, (bool, int, str, float, bytes)):
             return z3.BoolVal(a == b)
         if isinstance(a, SList) and isinstance(b, SList):
             j = z3.Int(fresh_name('eq_j'))
@@ -1566,6 +1570,8 @@ class Engine:
             return a + b
         if isinstance(op, ast.Add) and isinstance(a, str) and isinstance(b, str):
             return a + b
+        if isinstance(op, ast.Add) and self.c.strings and (isinstance(a, str) or (isinstance(a, z3.ExprRef) and a.sort() == z3.StringSort())) and (isinstance(b, str) or (isinstance(b, z3.ExprRef) and b.sort() == z3.StringSort())):
+            return z3.Concat(self.pystr(a), self.pystr(b))
         if (isinstance(a, z3.ExprRef) and z3.is_bv(a)) or (isinstance(b, z3.ExprRef) and z3.is_bv(b)):
             ab, bb = to_z3(a, 'bv64') if not (isinstance(a, z3.ExprRef) and z3.is_bv(a)) else a, to_z3(b, 'bv64') if not (isinstance(b, z3.ExprRef) and z3.is_bv(b)) else b
             if isinstance(a, z3.ExprRef) and z3.is_bool(a):
@@ -1805,7 +1811,38 @@ class Engine:
         return SList(it.len, z3.Lambda([i], to_z3(v, et)), et)
 
     def ev_JoinedStr(self, node, st):
-        return z3.Const(fresh_name('fstring'), U)
+        if not self.c.strings:
+            return z3.Const(fresh_name('fstring'), U)
+        parts = []
+        for v in node.values:
+            if isinstance(v, ast.Constant):
+                parts.append(z3.StringVal(str(v.value)))
+            elif isinstance(v, ast.FormattedValue):
+                if v.format_spec is not None or v.conversion not in (-1, 115):
+                    raise Undecided('format spec / conversion in f-string')
+                parts.append(self.pystr(self.ev(v.value, st)))
+            else:
+                raise Undecided('f-string part')
+        if not parts:
+            return z3.StringVal('')
+        return parts[0] if len(parts) == 1 else z3.Concat(*parts)
+
+    def pystr(self, v):
+        """str(v) as a z3 String term; str of an int / opaque value is an uninterpreted function of it"""
+        if isinstance(v, str):
+            return z3.StringVal(v)
+        if isinstance(v, bool):
+            return z3.StringVal(str(v))
+        if isinstance(v, int):
+            return self.uf('str_int', ['int'], 'str')(z3.IntVal(v))
+        if isinstance(v, z3.ExprRef):
+            if v.sort() == z3.StringSort():
+                return v
+            if z3.is_int(v):
+                return self.uf('str_int', ['int'], 'str')(v)
+            if v.sort() == U:
+                return self.uf('str_U', ['U'], 'str')(v)
+        raise Undecided('str() of %r' % (v,))
 
     def ev_Await(self, node, st):
         return self.ev(node.value, st)
@@ -1982,7 +2019,7 @@ class Engine:
                 return v.len
             if isinstance(v, tuple):
                 return len(v)
-            if isinstance(v, str):
+            if isinstance(v, (str, bytes)):
                 return len(v)
             if isinstance(v, z3.ExprRef) and v.sort() == z3.StringSort():
                 return z3.Length(v)
@@ -2062,6 +2099,8 @@ class Engine:
             return T
         if name == 'cast' or name == 'typing.cast':
             return args[1]
+        if name == 'str' and self.c.strings and len(args) == 1:
+            return self.pystr(args[0])
         if name == 'isinstance':
             raise Undecided('isinstance on %s' % ast.unparse(node))
         if name in ('math.ceil', 'math.floor'):
@@ -2171,6 +2210,28 @@ class Engine:
 
 # ---------------------------------------------------------------------------------------------
 # helpers
+
+
+def with_model(enter, exit_):
+    """Python's with-statement protocol around two oracles: enter(eng, st, node) -> [(state, ('value', v) | ('raise', e))],
+    exit_(eng, st, exc_or_None) -> [(state, None | raised exception)]; the managers modelled this way return a falsy value
+    from __(a)exit__, i.e. they never swallow the body's exception"""
+
+    def model(eng, st, node):
+        outs = []
+        for s1, (k, v) in enter(eng, st, node):
+            if k == 'raise':
+                outs.append((s1, ('raise', v)))
+                continue
+            if node.items[0].optional_vars is not None:
+                eng.assign(node.items[0].optional_vars, v, s1)
+            for s2, oc in eng.exec_block(node.body, s1):
+                exc = oc[1] if oc[0] == 'raise' else None
+                for s3, e3 in exit_(eng, s2, exc):
+                    outs.append((s3, ('raise', e3) if e3 is not None else oc))
+        return outs
+
+    return model
 
 
 def xbv_(x):
